@@ -2,7 +2,7 @@
     arguments already hex-decoded by the OCaml driver, result printed as one
     canonical line.  The Go (and C++) drivers print the same lines from the
     implementation.  No proofs. *)
-From GFS Require Import Base Dec Regex GenRegex GenPadTables Ranges Pad FrameSet Compress Path Seq Listing SpecRange SpecSeq.
+From GFS Require Import Base Dec Regex GenRegex GenPadTables Ranges Pad FrameSet Compress Path Seq Listing Seqinfo SpecRange SpecSeq.
 Local Open Scope Z_scope.
 
 Definition hexd (n : nat) : byte := if Nat.ltb n 10 then (48 + n)%nat else (87 + n)%nat.
@@ -213,6 +213,23 @@ Definition dispatch (args : list bytes) : bytes :=
                     kh "plast" (q_index q (q_len q - 1)) ++ kh "pout" (q_index q (q_len q))
           | _ => kv "qstr" (s2b "ERR")
           end
+        | other => outcome_tag other
+        end
+      | _ => s2b "BADARGS"
+      end
+    else if beq op (s2b "seqinfo") then
+      (* hash1 dir base range pad ext inverted index frame format refmt pattern; "-"-encoded empties; index/frame "N" = none *)
+      match rest with
+      | [h1; d; b; r; p; e; inv; idx; fr; fm; refmt; pat] =>
+        let optz (a : bytes) := if beq a (s2b "N") then None else Some (argz a) in
+        let o := mkSO d b r p e (negb (argz fm =? 0)) (negb (argz inv =? 0)) (negb (argz h1 =? 0)) (optz idx) (optz fr) in
+        let rf := if beq refmt (s2b "TEMPLATE-ERROR") then None else Some refmt in
+        match seqinfo_parse pat o rf with
+        | Ok r =>
+          if sr_error r then s2b "OK error=1" ++ kh "string" (sr_string r)
+          else s2b "OK error=0" ++ kh "string" (sr_string r) ++ kh "dir" (sr_dir r) ++ kh "base" (sr_base r) ++
+               kh "range" (sr_range r) ++ kh "pad" (sr_pad r) ++ kh "ext" (sr_ext r) ++ kz "start" (sr_start r) ++
+               kz "end" (sr_end r) ++ kz "length" (sr_len r) ++ kz "zfill" (sr_zfill r) ++ kb "hasRange" (sr_hasrange r)
         | other => outcome_tag other
         end
       | _ => s2b "BADARGS"
